@@ -18,8 +18,19 @@ let rec int_of_nat (n : nat) : int = match n with O -> 0 | S m -> 1 + int_of_nat
 let rec nat_of_int (n : int) : nat = if n <= 0 then O else S (nat_of_int (n - 1))
 
 (* exact conversion of a Coq integer to a double (all literals are far below 2^53) *)
-let rec float_of_pos (p : positive) : float =
-  match p with Coq_xH -> 1.0 | Coq_xO q -> 2.0 *. float_of_pos q | Coq_xI q -> 2.0 *. float_of_pos q +. 1.0
+let rec float_of_pos_slow (p : positive) : float =
+  match p with Coq_xH -> 1.0 | Coq_xO q -> 2.0 *. float_of_pos_slow q | Coq_xI q -> 2.0 *. float_of_pos_slow q +. 1.0
+(* fast path: accumulate the bits in a native int (exact below 2^53, which every literal is); numbers of more
+   than 52 bits take the slow path *)
+let float_of_pos (p : positive) : float =
+  let rec go p acc bit n =
+    if n > 52 then -1 else
+    match p with
+    | Coq_xH -> acc lor bit
+    | Coq_xO q -> go q acc (bit lsl 1) (n + 1)
+    | Coq_xI q -> go q (acc lor bit) (bit lsl 1) (n + 1) in
+  let i = go p 0 1 0 in
+  if i < 0 then float_of_pos_slow p else float_of_int i
 let float_of_z (z : coq_Z) : float =
   match z with Z0 -> 0.0 | Zpos p -> float_of_pos p | Zneg p -> -. (float_of_pos p)
 
